@@ -140,6 +140,13 @@ LIQ_MODELS = [
 ]
 
 
+# the global fee state and its per-group copy (FeeCfg.tla): edit / switch / propagate x accrue / collect / borrow in every order
+FEECFG_MODELS = [
+    {"name": "feecfg", "module": "MC_FeeCfg.tla", "cfg": {"quick": "MC_FeeCfgQuick.cfg", "thorough": "MC_FeeCfgThorough.cfg"},
+     "setup": "setups/payoutmodel.json", "init_from_setup": True, "timeout": {"quick": 900, "thorough": 10000}},
+]
+
+
 RISKCFG_MODELS = [
     {"name": "riskcfg", "module": "MC_RiskCfg.tla", "cfg": {"quick": "MC_RiskCfgQuick.cfg", "thorough": "MC_RiskCfgThorough.cfg"},
      "setup": "setups/riskcfg.json", "init_from_setup": True, "timeout": {"quick": 900, "thorough": 10000}},
@@ -241,7 +248,7 @@ PROPS = {
     "C12": risk_prop2(["configure_bank", "configure_interest", "configure_limits", "configure_emode", "clone_emode", "setup_emissions", "update_emissions",
                        "tokenless_complete", "write_metadata", "configure_oracle", "set_fixed_price", "tx"], ADMIN_DRIVERS, models=ADMIN_MODELS + WIND_MODELS + DELEV_MODELS, minnt=200),
     "C19": risk_prop2(["collect_fees", "withdraw_fees", "withdraw_fees_perm", "withdraw_insurance", "settle_emissions", "withdraw_emissions",
-                       "withdraw_emissions_perm", "deposit", "withdraw"], ADMIN_DRIVERS + LEDGER_DRIVERS, models=LEDGER_MODELS + PAYOUT_MODELS, minnt=200),
+                       "withdraw_emissions_perm", "deposit", "withdraw"], ADMIN_DRIVERS + LEDGER_DRIVERS, models=LEDGER_MODELS + PAYOUT_MODELS + FEECFG_MODELS, minnt=200),
     "C08": {
         "models": AUTH_MODELS + PDA_MODELS + [txm("Recv2", "setups/tx.json"), txm("RecvP", "setups/tx.json")],
         "drivers": STAKED_DRIVERS + RISK_DRIVERS + LIQ_DRIVERS + KAMINO_DRIVERS + RECV_DRIVERS + ADMIN_DRIVERS,
@@ -259,7 +266,7 @@ PROPS = {
     "C01": dict(ledger_prop(), drivers=LEDGER_DRIVERS + EDGE_DRIVERS + LIQ_DRIVERS, models=LEDGER_MODELS + WIND_MODELS),
     "C02": dict(ledger_prop(extra_ops=["purge", "transfer_account", "kamino_deposit", "kamino_withdraw", "drift_deposit", "drift_withdraw", "solend_deposit", "solend_withdraw"]), drivers=LEDGER_DRIVERS + LIQ_DRIVERS + ADMIN_DRIVERS + KAMINO_DRIVERS + EDGE_DRIVERS, models=LEDGER_MODELS + VENUE_MODELS + LIFE_MODELS + WIND_MODELS),
     "C03": dict(ledger_prop(extra_ops=["kamino_deposit", "kamino_withdraw", "drift_deposit", "drift_withdraw", "solend_deposit", "solend_withdraw"]), drivers=LEDGER_DRIVERS + KAMINO_DRIVERS + EDGE_DRIVERS, models=LEDGER_MODELS + VENUE_MODELS),
-    "C06": dict(ledger_prop(), drivers=LEDGER_DRIVERS + EDGE_DRIVERS + [{"name": "caps", "args": {"quick": [200], "thorough": [4000]}}]),
+    "C06": dict(ledger_prop(), models=LEDGER_MODELS + FEECFG_MODELS, drivers=LEDGER_DRIVERS + EDGE_DRIVERS + [{"name": "caps", "args": {"quick": [200], "thorough": [4000]}}]),
     "C16": dict(ledger_prop(extra_ops=["close_account", "transfer_account"]), models=LEDGER_MODELS + PDA_MODELS + LIFE_MODELS, drivers=LEDGER_DRIVERS + [{"name": "struct", "args": {"quick": [60], "thorough": [2000]}}] + LIQ_DRIVERS + STAKED_DRIVERS + ADMIN_DRIVERS + KAMINO_DRIVERS + EDGE_DRIVERS),
     "C17": dict(ledger_prop(), models=LEDGER_MODELS + CAPS_MODELS, drivers=LEDGER_DRIVERS + EDGE_DRIVERS + [{"name": "caps", "args": {"quick": [300], "thorough": [8000]}}]),
     "C15": {
